@@ -179,8 +179,10 @@ class C10(Prop):
                     want = self._conflicts_ref(key, t, extra)
                 except Exception:
                     return None
-                if want is not None and sorted(map(repr, codec.uncanon(impl_obs)[1:])) != sorted(map(repr, want)):
-                    return False
+                if want is not None:
+                    w = sorted(codec.tree_sx(('tu', tuple(codec.canon(x) for x in r))) for r in want)
+                    if sorted(codec.tree_sx(r) for r in impl_obs[1][1:]) != w:
+                        return False
         if case.op == 'isunique' and impl_obs in (codec.t_bool(True), codec.t_bool(False)):
             # isunique says there is no repeated key: exactly when duplicates() has no rows
             import petl as etl
@@ -202,6 +204,9 @@ class C10(Prop):
         inc, exc = norm(include), norm(exclude)
         if inc is not None and not all(f in hdr for f in inc) or exc is not None and not all(f in hdr for f in exc):
             return None
+        keynames = {hdr[i] for i in kidx}
+        if (inc is not None and exc is not None) or (inc and keynames & set(inc)) or (exc and keynames & set(exc)):
+            return None          # only the plain forms are judged: one of include / exclude, naming non-key fields
         counted = [i for i, f in enumerate(hdr) if i not in kidx and (inc is None or f in inc) and (exc is None or f not in exc)]
         groups = []
         for r in t[1:]:
